@@ -73,7 +73,8 @@ def _run_case(rng, res, idx, maxlen):
     except kh.ConfigRejected as e:
         res.skip('constructor rejected: ' + str(e)[:50])
         return
-    hist = gen_history(rng, rng.randint(5, maxlen), cfg)
+    # maxlen >= 150 marks a LONG history (two thirds of maxlen at least): values that only arise after tens of steps
+    hist = gen_history(rng, rng.randint(maxlen * 2 // 3, maxlen) if maxlen >= 150 else rng.randint(5, maxlen), cfg)
     # a second, unrelated model + preconditioner living in the same process and stepped in between: nothing of it may leak
     # into the observed one (module-level caches, class-level state)
     other = None
@@ -292,11 +293,11 @@ def run_shard(spec, res):
         if dl.over():
             break
         res.evaluations += 1
-        ml = maxlen if i % 10 == 0 else 40
+        ml = maxlen if i % 10 == 0 else (150 if i % 40 == 3 else 40)
         run_case(case_rng(spec['seed'], ID, i), res, i, ml)
 
 
 def replay(case, res):
     import os
-    for ml in (40, 200):
+    for ml in (40, 150, 200):
         run_case(case_rng(int(os.environ.get('VERIF_SEED', '0')), ID, case['idx']), res, case['idx'], ml)
